@@ -143,6 +143,12 @@ fn make_case(progs: &[Vec<L>], mailbox: Mailbox, work: Work, interval_with: bool
         clients.push(ClientSpec { init: vec![HInit::Addr], ops: vec![Op::Stop(H::Addr(0))] });
     }
     let mut role = RoleCfg { default_work: work, tick_work: work, ..RoleCfg::default() };
+    if stopper {
+        // ... and whose stopped() hook takes a while: the mailbox is still the live actor's, the
+        // parked senders stay parked until it has terminated
+        role.stopped_yields = 1;
+        role.stopped_sleep = 1;
+    }
     if interval_with {
         role.started_actions.push(Action::IntervalWith { timer: 1, period: 1 });
     }
@@ -227,6 +233,11 @@ fn plain_cases(tier: Tier) -> Vec<Case> {
                         v.push(make_case(&[a.clone(), b.clone(), c], mb, work, false, false, None));
                     }
                 }
+            }
+            // a stop request with two or three senders parked behind it
+            for a in seqs(&senders, 1) {
+                v.push(make_case(&[vec![a[0], a[0]], vec![a[0], a[0]]], mb, work, false, true, Some(4)));
+                v.push(make_case(&[vec![a[0]], vec![a[0]], vec![a[0], a[0]]], mb, work, false, true, Some(3)));
             }
             // a sender that gives up while parked (its future is dropped) holds nobody else up and
             // does not loosen the bound for the others
